@@ -3,8 +3,8 @@
    code_data/_json_data.py and field_is_default by the correspondence run.  The text layer (json / orjson
    dumps and loads, repr / literal_eval of surrogate strings, base64) is outside the model: see the
    trusted base.  Schema validity is decided by the check's independent validator on every document. *)
-From PCD Require Import Base.PyBase Model.Args Model.Data Model.Consts Model.Json
-  Proofs.C07_Statements Proofs.JsonProofs.
+From PCD Require Import Base.PyBase Model.Args Model.Data Model.Consts Model.Json Model.JsonFields
+  Proofs.C07_Statements Proofs.JsonProofs Gen.SrcFields.
 
 (* loading the JSON form gives equal data (all NaNs identified) for every value whose integer fields
    are JSON-safe, at any nesting of code constants and for every constant kind *)
@@ -37,3 +37,8 @@ Print Assumptions C07_big_int_text.
 Theorem C07_json_is_plain : forall d, json_plain (code_data_to_json d) = true.
 Proof. exact json_plain_all. Qed.
 Print Assumptions C07_json_is_plain.
+
+(* the dataclass fields and defaults the model hides / restores are those of the current source
+   (Gen/SrcFields.v is regenerated from code_data/__init__.py on every run) *)
+Example C07_fields_and_defaults_match_the_source : fields_eqb source_fields model_fields = true.
+Proof. vm_compute. reflexivity. Qed.
